@@ -153,7 +153,12 @@ impl ShellEnvironment {
             HashMap::with_capacity(self.entry_count);
 
         for (_, var_map) in self.scopes.iter().rev() {
-            for (name, var) in var_map.iter().filter(|(_, v)| v.is_exported()) {
+            // N.B. An exported variable without a value (e.g., a `local x` shadowing an
+            // exported `x`) doesn't hide an outer one: it has nothing to pass on.
+            for (name, var) in var_map
+                .iter()
+                .filter(|(_, v)| v.is_exported() && v.value().is_set())
+            {
                 // Only insert the variable if it hasn't been seen yet.
                 if let hash_map::Entry::Vacant(entry) = visible_vars.entry(name) {
                     entry.insert(var);
